@@ -701,18 +701,20 @@ def post_specs(draw):
         )
         names = draw(st.lists(name, min_size=n, max_size=n))
         if mode == "unique":
+            from fontTools.ttLib.standardGlyphOrder import standardGlyphOrder as _STD  # the 258 Macintosh names (a constant)
+
             seen = set()
             out = []
             for k, v in names:
-                key = (k, v)
+                key = _STD[v] if k == "std" else v
                 bump = 0
-                while key in seen:  # make unique by construction
+                while key in seen:  # make unique by construction (by resolved NAME: a custom string may spell a standard name)
                     bump += 1
                     if k == "std":
                         v = (v + 1) % 258
                     else:
                         v = (v[:240] + "n%d" % bump) if len(v) >= 240 else v + "x"
-                    key = (k, v)
+                    key = _STD[v] if k == "std" else v
                 seen.add(key)
                 out.append([k, v])
             names = out
@@ -726,8 +728,8 @@ def post_specs(draw):
 
 
 @st.composite
-def os2_specs(draw):
-    version = draw(st.integers(0, 5))
+def os2_specs(draw, version=None):
+    version = draw(st.integers(0, 5)) if version is None else version
     vals = {"version": version}
     u16_ = st.one_of(st.integers(0, 65535), st.sampled_from([0, 1, 400, 0x8000, 0xFFFF]))
     s16_ = st.one_of(st.integers(-32768, 32767), st.sampled_from([0, -1, -32768, 32767]))
